@@ -2,7 +2,7 @@
     unit, list, prod, sumbool, sumor map to OCaml's; nat, positive, N, Z stay
     the extracted inductive types.  No Extract Constant. *)
 From Coq Require Import Extraction ExtrOcamlBasic.
-From Meddly Require Import Model.DD Model.EvDD Model.RefStore Model.OptStore Model.Counter Model.Build Model.Scalar Model.Bits Gen.Terminal Model.MemSpec Model.Audit Model.Reach Model.Enum Model.Reorder Model.Lifecycle Model.Product.
+From Meddly Require Import Model.DD Model.EvDD Model.RefStore Model.OptStore Model.Counter Model.Build Model.Scalar Model.Bits Gen.Terminal Model.MemSpec Model.Audit Model.Reach Model.Enum Model.Reorder Model.Lifecycle Model.Product Model.EnumOpt.
 Extraction Language OCaml.
 Extraction "model.ml"
   DD.dd_eqb DD.mk DD.unpack DD.evalS DD.evalL DD.eval DD.reducedb DD.of_fun
@@ -18,4 +18,5 @@ Extraction "model.ml"
   Enum.enum Enum.cardinality Enum.node_count Enum.edge_count Enum.members Enum.index_table Enum.get_element
   Reorder.permute_dd
   Lifecycle.ls_init Lifecycle.lstep
-  Product.prod_countN Product.unrankN Product.rankN.
+  Product.prod_countN Product.unrankN Product.rankN
+  EnumOpt.enum_opt.
